@@ -70,6 +70,30 @@ import Mathlib.Analysis.Real.Sqrt
                                                 best state; histories: C02)
   the objective `function_t::vgrad`   oracle    `f`, `g'` with contract `SubGrad` (monitored against the known `f` by the python oracle)
   `std::isfinite`, `state.valid()`    oracle    arbitrary predicates in the ellipsoid theorems; `fin ≡ true` in `EnvOK`
+
+  TRANSLATED (translation round; `tools/props/c03_translate.py` regenerates the text from the source of the tree under check on every
+  run; the theorems `model_…_is_generated` of `Proofs/EllipsoidGen.lean` / `Proofs/BundleGen.lean` state that the model's definition IS
+  the generated one — `rfl`, except where noted):
+  src/solver/ellipsoid.cpp  do_minimize: the loop body is walked statement by statement (an unexpected statement breaks the translation)
+      start scale `R` / `R*R`, `gHg < epsilon()`, flags of the early exit, 1-D step, `alpha`, the centre step and the H update
+      (element-wise), `iter_ok`, `sqrt(gHg) < epsilon`          → Gen/EllipsoidStep.lean `initScale earlyStop earlyIterOk earlyConverged
+      step1dX step1dH alphaCut stepXElem stepHElem iterOk converged` ↔ `initH earlyStop step1d alphaCut stepX stepH converged iterND`
+  src/solver/bundle.cpp  econverged, sconverged, append (4 arguments: count of delete_largest, the error re-basing of a serious step,
+      the error of the new row), moveto (text check), solve for 1 and 2 rows; bundle.h delta, proximal   → Gen/BundleStep.lean
+      `econverged sconverged delCount shiftError seriousError nullError solve1 solve2 delta proximalElem` ↔ `econverged sconverged
+      delCount appendStep solve1 solve2 delta proximal` (`solve2` over a field: `0.5 * x` vs `x / 2`, Proofs/BundleGenField.lean)
+  src/solver/csearch.cpp  search: start values, lambda new_trial, the decision chain of one pass by symbolic execution of the loop body;
+      csearch.h enum csearch_status   → `startT startTL startTR startStatus newTrial csearchStep statusOrder` ↔ `CState.start newTrial
+      csearchStep Status.toNat` (by cases on `tR`, then `rfl`)
+  src/solver/proximity.cpp  make_miu0, make_miu (guard and results; `u` element-wise, equal to the model's `vaxpy` under commutativity
+      of `+`), the nu combination, the alpha grid and the `!= max` guards of both `update`s (their plumbing and the constructor's
+      initialisers pinned as text)   → `makeMiu0 makeMiu makeMiuU nuCombElem alphaGrid proxKeep1 proxKeep2` ↔ `makeMiu0 makeMiu
+      nuComb proxUpdate1 proxUpdate2`
+  src/solver/rqb.cpp, src/solver/fpba.cpp  do_minimize: `iter_ok`, `converged`, the dispatch on the curve-search status (branch bodies,
+      the lambda apply_nesterov_sequence and the start statements pinned as text)   → `rqbIterOk rqbConverged rqbBranch fpba…` ↔
+      `BundleSolver.pass` (`model_pass_is_generated`, by cases on solver and status)
+  HAND-WRITTEN still: reductions (`dot`, `smearedE/S` — their C++ text is pinned —, `mv`, `quad`), `active`/`reduce`/
+  aggregation, `std::clamp`, `std::min`, Nesterov sequences, the bodies of the serious steps (`seriousR/F`), `update_if_better`.
 -/
 set_option linter.unusedSectionVars false
 set_option linter.unusedVariables false
